@@ -19,8 +19,12 @@ classes) are counted in `run.counters` and judged once in `finalize_merged` agai
 """
 from __future__ import annotations
 
+import json
 import math
+import os
 import random as pyrandom
+import subprocess
+import sys
 
 import numpy as np
 import torch
@@ -42,7 +46,8 @@ RULE = ("random id-encoded datasets (2..64 samples; 1..4-d samples with dims 1..
         "over KDSubset / over and under XTransformWrapper(id, neg, double); per case 3..6 indices x the request forms "
         "'x class','class x','x','class' + forms with index/ctx items; plus dedicated p=1 cases (64 distinct classes, all 64 "
         "indices, distinct seeds) for the binomial clause and the first/last-partner census; 2-/3-sample p=1 datasets x 64 seeds per "
-        "index; ~22% soft labels (LabelSmoothingWrapper below the mix wrapper / soft-vector leaf), ~20% ctx-coupled leaves with return_ctx. A case is distinct by its full spec; every case is non-trivial")
+        "index; ~22% soft labels (LabelSmoothingWrapper below the mix wrapper / soft-vector leaf), ~20% ctx-coupled leaves with return_ctx; ~60% of the leaves serve non-contiguous tensors; value-class cases (equal infinities, "
+        "half/bfloat/float/double near the dtype limit with opposite signs); 2 child interpreters (other PYTHONHASHSEED) x 4 seeded configs. A case is distinct by its full spec; every case is non-trivial")
 ASSUMPTIONS = [
     "leaves return python int (or 0-d long tensor) labels and a fresh float32 tensor per load (the wrapper mixes in place), as the repository's datasets do",
     "datasets have >= 2 samples ('one other sample' is undefined for a single sample); samples of one dataset have equal ndim; "
@@ -60,10 +65,18 @@ ASSUMPTIONS = [
     "ctx-coupled leaves: getitem_class(idx, ctx) answers for the sample whose x was loaded last with the same ctx (the loaders of one "
     "sample share the ctx; label requested right after the data of the same sample, as the current wrapper does); driven with return_ctx=True",
     "partner census: in the 64-sample p=1 runs every sample can be drawn as partner with probability >= 1/64; small datasets: P(partner=self) <= 1/n",
+    "memory layouts: leaves also serve non-contiguous tensors with own storage (permuted storage, strided view, clone of a permuted view)",
+    "value classes (separate small cases, reference built from the partner and the two weights the returned label names): equal +-inf at "
+    "the same positions of all samples, driven with alpha >= 4 only (a float32 weight of exactly 0/1 would make 0*inf = nan in the plain "
+    "formula w*x_i + (1-w)*x_p too); 2-sample datasets in float16/bfloat16/float32/float64 with magnitudes 0.62..0.92 of the dtype maximum and "
+    "opposite signs (20000 trials per dtype of the plain formula on the installed torch stay finite and within 8 eps), tolerance 8*max(eps(dtype), 1.2e-7)",
+    "cross-interpreter clause: a few seeded configurations (incl. custom ctx_prefix) are recomputed in fresh interpreters with another "
+    "PYTHONHASHSEED and compared (rel 1e-6) with this interpreter; a child that cannot be started, crashes, raises or times out is "
+    "'not compared' (monitor stays 0 -> INCONCLUSIVE), never a violation",
     "without a seed the request forms are judged separately (no agreement between separate requests is claimed)",
     "KDSubset *above* the mix wrapper is not driven: the ModeWrapper constructor refuses outer layers without the fused accessor",
 ]
-MONITORS = ["small_dataset_indices_checked", "soft_label_results_checked", "ctx_coupled_results_checked", "joint_results_checked", "x_only_results_checked", "label_only_results_checked", "seeded_form_agreement_checked",
+MONITORS = ["noncontiguous_mixed_results_checked", "value_inf_mixed_results_checked", "value_limit_mixed_results_checked", "cross_interpreter_results_compared", "small_dataset_indices_checked", "soft_label_results_checked", "ctx_coupled_results_checked", "joint_results_checked", "x_only_results_checked", "label_only_results_checked", "seeded_form_agreement_checked",
             "unified_shape_results_checked", "untouched_results_seen", "mixed_results_seen", "p1_draws"]
 
 # tolerances (see ASSUMPTIONS)
@@ -115,11 +128,35 @@ def smooth_vec(c, ncls, smooth):
     return v
 
 
+LAYOUTS = ["contig", "permuted", "strided", "clone_view"]
+
+
+def lay_out(t, layout):
+    """fresh tensor with the values of `t` in the given memory layout (what datasets that keep HWC storage / hand out
+    strided views serve): contig | permuted (reversed-axis storage seen through .permute) | strided (every 2nd element of a
+    longer last axis) | clone_view (clone of a permuted view: keeps the permuted strides)"""
+    if layout in (None, "contig"):
+        return t.clone()
+    if layout == "strided":
+        base = torch.full(tuple(t.shape[:-1]) + (t.shape[-1] * 2,), -7.0, dtype=t.dtype)
+        base[..., ::2] = t
+        return base[..., ::2]
+    perm = tuple(reversed(range(t.ndim)))
+    view = t.permute(perm).clone(memory_format=torch.contiguous_format).permute(perm)   # own storage in reversed-axis order, original shape
+    return view.clone() if layout == "clone_view" else view
+
+
+def layout_of(spec, j):
+    lay = spec.get("layout")
+    return LAYOUTS[j % len(LAYOUTS)] if lay == "mixed" else lay
+
+
 class IdLeaf(KDDataset):
     """root dataset with id/position-encoded samples; every load returns a fresh tensor and is logged (list + ctx)"""
 
-    def __init__(self, shapes, classes, n_classes, label_kind="int", ctx_coupled=False, smooth=None):
+    def __init__(self, shapes, classes, n_classes, label_kind="int", ctx_coupled=False, smooth=None, layout=None):
         super().__init__()
+        self.layout = layout                # memory layout of the served tensors (None / name / "mixed": by sample id)
         self.ctx_coupled = ctx_coupled      # getitem_class answers for the sample whose x was loaded last with this ctx
         self.smooth = smooth                # label_kind "soft": smoothed one-hot float vector
         self.shapes = [tuple(s) for s in shapes]
@@ -143,7 +180,7 @@ class IdLeaf(KDDataset):
             ctx[LAST_X] = idx
         if idx not in self._enc:
             self._enc[idx] = torch.from_numpy(encode(idx, self.shapes[idx]).astype(np.float32))
-        return self._enc[idx].clone()   # fresh tensor per load
+        return lay_out(self._enc[idx], layout_of({"layout": self.layout}, idx))   # fresh tensor (own storage) per load
 
     def getitem_class(self, idx, ctx=None):
         idx = int(idx)
@@ -245,6 +282,8 @@ def _gen_mix(rng):
     spec["ctx_coupled"] = rng.random() < 0.2
     if spec["ctx_coupled"]:
         spec["return_ctx"] = True
+    spec["layout"] = rng.choice([None, None, None, None, "permuted", "permuted", "strided", "clone_view", "mixed", "mixed"])
+    spec["ctx_prefix"] = rng.choice([None, None, None, None, "mix_train", "kdmix2"])
     k = min(n, rng.randint(3, 6))
     idx = set(rng.sample(range(n), k)) | ({0, n - 1} if rng.random() < 0.5 else set())
     idx = sorted(idx)
@@ -311,6 +350,43 @@ def _gen_small(rng):
             "indices": list(range(n)), "forms": [rng.choice(["x class", "class x", "class", "x"])]}
 
 
+VALUE_DTYPES = ["float16", "bfloat16", "float32", "float64"]     # established on the pristine formula (see ASSUMPTIONS)
+
+
+def _gen_values(rng):
+    """value classes: equal infinities at the same positions of every sample / magnitudes near the dtype limit with
+    opposite signs in the two samples of a 2-sample dataset"""
+    vk = rng.choice(["inf", "inf", "limit", "limit", "limit"])
+    nd = rng.choice([1, 2, 3])
+    shape = [rng.randint(2, 5) for _ in range(nd)]
+    spec = {"kind": "values", "vkind": vk, "shape": shape, "data_seed": rng.randrange(10 ** 6),
+            "layout": rng.choice([None, None, "permuted", "strided", "clone_view", "mixed"]),
+            "mixup_p": rng.choice([1.0, 1.0, 0.7]), "seeds": [rng.choice([0, rng.randrange(1000), rng.randrange(10 ** 6)]) for _ in range(5)],
+            "unify": rng.choice([None, "pad_or_cut_end"]), "tf_above": rng.choice([None, None, "id"])}
+    if vk == "inf":
+        # alpha >= 4: the weight is strictly inside (0,1) in float32 (P(1-lambda < 6e-8) < 1e-27), 0*inf never arises
+        spec.update(n=rng.choice([2, 3, 4]), dtype=rng.choice(["float32", "float32", "float64"]), mixup_alpha=rng.choice([4, 4.0, 8.0]),
+                    inf_sign=rng.choice([-1, -1, 1, 0]))
+    else:
+        spec.update(n=2, dtype=rng.choice(VALUE_DTYPES), mixup_alpha=rng.choice([0.3, 1, 1.0, 2.0, 4.0]))
+    return spec
+
+
+def _gen_xproc(rng, hashseed):
+    cfgs = []
+    for k in range(4):
+        c = _gen_mix(rng)
+        while c["cutmix_p"]:
+            c = _gen_mix(rng)
+        c.update(seed=rng.choice([0, rng.randrange(1000), rng.randrange(10 ** 6)]), ctx_coupled=False, return_ctx=False,
+                 ctx_prefix=[None, "mix_train", "kdmix2", None][k], forms=["x class", "x", "class"],
+                 indices=sorted({i % len(c["subset"] or range(c["m"])) for i in c["indices"]})[:6])
+        if c["mixup_p"] and c["mixup_p"] < 0.3:
+            c["mixup_p"] = 1.0
+        cfgs.append(c)
+    return {"kind": "xproc", "hashseed": hashseed, "configs": cfgs}
+
+
 def _p1_count(run):
     if run.quick():
         return 50                                   # 3200 draws
@@ -323,15 +399,25 @@ def gen_cases(run):
     cnt = _p1_count(run)
     run.notes["p1_plan"] = [[sh, cnt]]
     p1 = p1_specs(run.seed, sh, cnt)
-    n = run.n(650, 64000)
+    n = run.n(450, 64000)
     every = max(1, n // max(1, len(p1)))
+    global _ASYNC
+    _ASYNC = True                   # generated runs overlap the child interpreters with the other cases; a replay runs them synchronously
     n_small = 8 if run.quick() else 40
+    n_values = 60 if run.quick() else 600
+    xproc = [_gen_xproc(run.rng, 1), _gen_xproc(run.rng, 2 + run.rng.randrange(10 ** 6))]
     for i in range(n):
+        if xproc and i in (0, 5):
+            yield xproc.pop(0)
         if i % every == 0 and p1:
             yield p1.pop()
         if i < n_small:
             yield _gen_small(run.rng)
+        if i < n_values:
+            yield _gen_values(run.rng)
         yield _gen_mix(run.rng)
+    while xproc:
+        yield xproc.pop(0)
     while p1:
         yield p1.pop()
 
@@ -429,6 +515,8 @@ def _mix_kwargs(spec):
             kw[k] = spec[k]
     if spec["unify"] is not None:
         kw["mixup_unify_shapes_mode"] = spec["unify"]
+    if spec.get("ctx_prefix") is not None:
+        kw["ctx_prefix"] = spec["ctx_prefix"]
     return kw
 
 
@@ -442,7 +530,7 @@ _DESC = {"spec": None, "desc": ""}
 
 
 def _describe_uncached(spec):
-    leaf = "leaf" + ("[ctx-coupled]" if spec.get("ctx_coupled") else "") + (f"[soft {spec['smooth']}]" if spec.get("smooth_via") == "leaf" else "")
+    leaf = "leaf" + (f"[{spec['layout']}]" if spec.get("layout") else "") + ("[ctx-coupled]" if spec.get("ctx_coupled") else "") + (f"[soft {spec['smooth']}]" if spec.get("smooth_via") == "leaf" else "")
     inner = f"KDSubset({leaf})" if spec["subset"] is not None else leaf
     if spec.get("smooth_via") == "wrapper":
         inner = f"LabelSmoothing[{spec['smooth']}]({inner})"
@@ -455,7 +543,7 @@ def _describe_uncached(spec):
 
 def _build(run, spec):
     leaf = IdLeaf(spec["shapes"], spec["classes"], spec["ncls"], spec["label_kind"], ctx_coupled=spec.get("ctx_coupled", False),
-                  smooth=spec.get("smooth"))
+                  smooth=spec.get("smooth"), layout=spec.get("layout"))
 
     def make():
         ds = leaf
@@ -629,6 +717,10 @@ def run_case(run, spec):
         return _run_p1_aggregate(run, spec)
     if spec["kind"] == "p1small":
         return _run_p1small(run, spec)
+    if spec["kind"] == "values":
+        return _run_values(run, spec)
+    if spec["kind"] == "xproc":
+        return _run_xproc(run, spec)
     _run_mix(run, spec)
 
 
@@ -647,6 +739,7 @@ def _run_mix(run, spec):
     run.cover("config", "subset" if spec["subset"] is not None else "-", spec["tf_below"] or "-", spec["tf_above"] or "-",
               "unif" if M.uniform else "diff", spec["unify"] or "-", _p_class(spec["mixup_p"]), _p_class(spec["cutmix_p"]),
               "seed" if seeded else "noseed", spec["label_kind"])
+    run.cover("layout", spec.get("layout") or "contig", len(M.shapes[0]), "prefix" if spec.get("ctx_prefix") else "-")
     run.cover("size", min(M.n, 5), "a<1" if (spec["mixup_alpha"] or 1) < 1 else "a>=1", len(M.shapes[0]))
     wrappers = {}
     sampled = False
@@ -681,6 +774,8 @@ def _run_mix(run, spec):
             if info is None:
                 continue
             per_form[form] = (x, y, info)
+            if x is not None and spec.get("layout") not in (None, "contig") and not info["unmixed_like"]:
+                run.count("noncontiguous_mixed_results_checked")
             if M.soft and y is not None:
                 run.count("soft_label_results_checked")
             if spec.get("ctx_coupled") and y is not None and not info["unmixed_like"]:
@@ -749,6 +844,254 @@ def _run_p1small(run, spec):
                           f"{spec['seed0']}+{spec['stride']}*k (P < 1e-19 if the partner can be another sample)")
         else:
             run.cover("small-mixed-fraction", M.n, min(9, 10 * mixed // SMALL_K))
+
+
+# ------------------------------------------------------------------------------------------------ value classes
+class ValueLeaf(KDDataset):
+    """samples given as float64 arrays, served in `dtype` and in the requested memory layout; class = sample id"""
+
+    def __init__(self, arrays, dtype, layout):
+        super().__init__()
+        self.t = [torch.tensor(a, dtype=torch.float64).to(dtype) for a in arrays]
+        self.layout = layout
+
+    def getitem_x(self, idx, ctx=None):
+        idx = int(idx)
+        return lay_out(self.t[idx], layout_of({"layout": self.layout}, idx))
+
+    def getitem_class(self, idx, ctx=None):
+        return int(idx)
+
+    def getshape_class(self):
+        return (len(self.t),)
+
+    def __len__(self):
+        return len(self.t)
+
+
+class _LabelDims:
+    soft = False
+
+    def __init__(self, n):
+        self.ncls = n
+
+
+def _value_arrays(spec):
+    rs = np.random.default_rng(spec["data_seed"])
+    shape, n = tuple(spec["shape"]), spec["n"]
+    if spec["vkind"] == "inf":
+        mask = rs.random(shape) < 0.35
+        mask.flat[0], mask.flat[-1] = True, False
+        sign = np.full(shape, float(spec["inf_sign"])) if spec["inf_sign"] else rs.choice([-1.0, 1.0], size=shape)
+        out = []
+        for _ in range(n):
+            a = rs.uniform(-100, 100, size=shape).astype(np.float32).astype(np.float64)
+            a[mask] = sign[mask] * np.inf
+            out.append(a)
+        return out
+    fmax = float(torch.finfo(getattr(torch, spec["dtype"])).max)
+    sgn = rs.choice([-1.0, 1.0], size=shape)
+    return [sgn * rs.uniform(0.62, 0.92, size=shape) * fmax, -sgn * rs.uniform(0.62, 0.92, size=shape) * fmax]
+
+
+def _run_values(run, spec):
+    """the reference uses the partner and the two weights the returned label names: x = y_i*x_i + y_p*x_p; equal
+    infinities stay that infinity, finite inputs give a finite result (tolerance 8 eps of the sample dtype)"""
+    dtype = getattr(torch, spec["dtype"])
+    leaf = ValueLeaf(_value_arrays(spec), dtype, spec.get("layout"))
+    X = [t.to(torch.float64).numpy() for t in leaf.t]            # the values really served (after the cast to dtype)
+    n = len(X)
+    eps = max(float(torch.finfo(dtype).eps), 1.2e-7)              # the weight itself is a float32
+    dims = _LabelDims(n)
+    run.cover("values", spec["vkind"], spec["dtype"], spec.get("layout") or "contig", len(spec["shape"]), _p_class(spec["mixup_p"]))
+    for seed in spec["seeds"]:
+        kw = dict(mixup_p=spec["mixup_p"], mixup_alpha=spec["mixup_alpha"], seed=seed)
+        if spec["unify"] is not None:
+            kw["mixup_unify_shapes_mode"] = spec["unify"]
+        desc = f"KDMixWrapper(value-leaf[{spec['vkind']}, {spec['dtype']}, {spec.get('layout') or 'contig'}, {n}x{tuple(spec['shape'])}], " + \
+               ", ".join(f"{k}={v!r}" for k, v in kw.items()) + ")"
+
+        def make():
+            ds = KDMixWrapper(leaf, **kw)
+            return XTransformWrapper(ds, transform=TF["id"][0]) if spec["tf_above"] else ds
+        ok, ds = call_real(run, make, crash_key="ctor-crash", what=f"constructing {desc}")
+        if not ok:
+            return
+        for i in range(n):
+            ref = None
+            for form in ("x class", "class x", "x"):
+                ok, mw = call_real(run, lambda: ModeWrapper(ds, mode=form), crash_key="modewrapper-ctor-crash", what=f"ModeWrapper({desc}, {form!r})")
+                if not ok:
+                    return
+                what = f"{desc} mode={form!r} [{i}]"
+                ok, res = call_real(run, lambda: mw[i], crash_key="getitem-crash", what=what)
+                if not ok:
+                    return
+                x, y = _split(form, res, False)
+                if not torch.is_tensor(x) or not x.dtype.is_floating_point or tuple(x.shape) != tuple(spec["shape"]):
+                    run.violation("x:shape-differs-from-sample-i", f"{what}: x is {type(x).__name__} {getattr(x, 'dtype', '')} {tuple(getattr(x, 'shape', ()))}")
+                    return
+                xv = x.detach().to(torch.float64).numpy()
+                if y is None:
+                    # same seed: the data-only request describes the draw of the joint request
+                    if ref is not None:
+                        run.count("value_form_agreement_checked")
+                        if not np.array_equal(np.isnan(xv), np.isnan(ref)) or not np.allclose(xv, ref, rtol=8 * eps, atol=0, equal_nan=True):
+                            run.violation("forms:x-differs-between-request-forms", f"{what}: x differs from the x of the joint request with the same seed")
+                            return
+                    continue
+                yv = _label_struct(run, dims, y, what)
+                if yv is None:
+                    return
+                others = [int(c) for c in np.nonzero(yv > 0)[0] if c != i]
+                p = others[0] if others else i
+                wi, wp = (float(yv[i]), float(yv[p])) if p != i else (1.0, 0.0)
+                a, b = X[i], X[p]
+                both_inf = np.isinf(a) & (a == b)
+                with np.errstate(invalid="ignore", over="ignore"):
+                    exp = np.where(both_inf, a, wi * np.where(both_inf, 0.0, a) + wp * np.where(both_inf, 0.0, b))
+                    tol = 8 * eps * (np.abs(wi * np.where(both_inf, 0.0, a)) + np.abs(wp * np.where(both_inf, 0.0, b))) + 1e-30
+                run.count("value_class_results_checked")
+                if p != i:
+                    run.count(f"value_{spec['vkind']}_mixed_results_checked")
+                if both_inf.any() and not np.array_equal(xv[both_inf], a[both_inf]):
+                    run.violation("x:equal-infinities-not-preserved",
+                                  f"{what}: samples {i} and {p} both hold {_fmt(a[both_inf][:4])} at the same positions, the result holds {[repr(float(z)) for z in xv[both_inf][:4]]} "
+                                  f"(label weights {wi:.5f}/{wp:.5f})")
+                    return
+                fin = ~both_inf
+                if not np.isfinite(xv[fin]).all():
+                    k = int(np.nonzero(~np.isfinite(xv[fin]))[0][0])
+                    run.violation("x:finite-convex-combination-not-finite",
+                                  f"{what}: {spec['dtype']} result is {float(xv[fin][k])!r} where x_i={float(a[fin][k])!r}, x_p={float(b[fin][k])!r} and the label weights are "
+                                  f"{wi:.5f}/{wp:.5f} (combination {float(exp[fin][k])!r}, dtype max {float(torch.finfo(dtype).max)!r})")
+                    return
+                if (np.abs(xv[fin] - exp[fin]) > tol[fin]).any():
+                    k = int(np.argmax(np.abs(xv[fin] - exp[fin]) - tol[fin]))
+                    run.violation("x:not-the-convex-combination-the-label-names",
+                                  f"{what}: label names partner {p} with weights {wi:.6f}/{wp:.6f}; x={float(xv[fin][k])!r} but w*x_i+(1-w)*x_p={float(exp[fin][k])!r} "
+                                  f"(x_i={float(a[fin][k])!r}, x_p={float(b[fin][k])!r})")
+                    return
+                ref = xv
+
+
+# ------------------------------------------------------------------------------------------------ cross-interpreter clause
+_ASYNC = False
+_pending = []
+XPROC_TIMEOUT_S = 600     # generous; expiry is recorded as "not compared" (inconclusive material), never as a violation
+XPROC_MARK = "KDV11RESULT "
+
+
+def xproc_table(cfg):
+    """{form: [per index: {"x": [...], "y": [...]} | {"refused": type} ]} of one seeded configuration - plain, no monitors;
+    this is what the child interpreter runs (and the checking interpreter, for comparison)"""
+    leaf = IdLeaf(cfg["shapes"], cfg["classes"], cfg["ncls"], cfg["label_kind"], smooth=cfg.get("smooth"), layout=cfg.get("layout"))
+    ds = leaf
+    if cfg["subset"] is not None:
+        ds = KDSubset(ds, list(cfg["subset"]))
+    if cfg.get("smooth_via") == "wrapper":
+        ds = LabelSmoothingWrapper(ds, smoothing=cfg["smooth"])
+    if cfg["tf_below"] is not None:
+        ds = XTransformWrapper(ds, transform=TF[cfg["tf_below"]][0])
+    ds = KDMixWrapper(ds, **_mix_kwargs(cfg))
+    if cfg["tf_above"] is not None:
+        ds = XTransformWrapper(ds, transform=TF[cfg["tf_above"]][0])
+    out = {}
+    for form in cfg["forms"]:
+        mw = ModeWrapper(ds, mode=form)
+        rows = []
+        for i in cfg["indices"]:
+            x, y = _split(form, mw[i], False)
+            rows.append({"x": None if x is None else x.detach().to(torch.float64).flatten().tolist(),
+                         "y": None if y is None else y.detach().to(torch.float64).flatten().tolist()})
+        out[form] = rows
+    return out
+
+
+def _xproc_fail(run, msg):
+    run.count("cross_interpreter_child_failed")
+    run.notes.setdefault("cross_interpreter_failures", [])
+    if len(run.notes["cross_interpreter_failures"]) < 5:
+        run.notes["cross_interpreter_failures"].append(msg[:600])
+
+
+def _run_xproc(run, spec):
+    mine = []
+    for cfg in spec["configs"]:
+        try:
+            mine.append(xproc_table(cfg))
+        except Exception:
+            mine.append(None)          # judged by the ordinary cases under its own key; nothing to compare here
+    env = dict(os.environ, PYTHONHASHSEED=str(spec["hashseed"]), OMP_NUM_THREADS="1", MKL_NUM_THREADS="1", PYTHONDONTWRITEBYTECODE="1",
+               PYTHONPATH=os.pathsep.join([str(core.REPO), str(core.VERIF)]))
+    try:
+        p = subprocess.Popen([sys.executable, "-m", "kdv.h11_child"], cwd=str(core.VERIF), env=env, stdin=subprocess.PIPE,
+                             stdout=subprocess.PIPE, stderr=subprocess.STDOUT, text=True)
+        p.stdin.write(json.dumps({"configs": spec["configs"]}))
+        p.stdin.close()
+        p.stdin = None
+    except Exception as e:
+        _xproc_fail(run, f"could not start the child interpreter: {e!r}")
+        return
+    run.cover("xproc", "hashseed", min(spec["hashseed"], 3))
+    if _ASYNC:
+        _pending.append((spec, p, mine))
+    else:
+        _collect_xproc(run, spec, p, mine)
+
+
+def _close(a, b):
+    if (a is None) != (b is None):
+        return False
+    if a is None:
+        return True
+    return len(a) == len(b) and all(abs(u - v) <= 1e-6 * (abs(u) + abs(v)) + 1e-9 for u, v in zip(a, b))
+
+
+def _collect_xproc(run, spec, p, mine):
+    try:
+        out, _ = p.communicate(timeout=XPROC_TIMEOUT_S)
+    except subprocess.TimeoutExpired:
+        p.kill()
+        p.communicate()
+        _xproc_fail(run, f"child interpreter (PYTHONHASHSEED={spec['hashseed']}) hit the {XPROC_TIMEOUT_S}s watchdog")
+        return
+    line = next((l for l in reversed(out.splitlines()) if l.startswith(XPROC_MARK)), None)
+    if p.returncode != 0 or line is None:
+        _xproc_fail(run, f"child interpreter (PYTHONHASHSEED={spec['hashseed']}) rc={p.returncode}: {out[-400:]}")
+        return
+    res = json.loads(line[len(XPROC_MARK):])
+    if "fatal" in res or len(res.get("results", [])) != len(spec["configs"]):
+        _xproc_fail(run, f"child interpreter: {res.get('fatal', 'incomplete result')}")
+        return
+    run.count("child_interpreters")
+    for cfg, a, b in zip(spec["configs"], mine, res["results"]):
+        if a is None:
+            continue
+        one = {"kind": "xproc", "hashseed": spec["hashseed"], "configs": [cfg]}          # minimal replayable witness
+        if "error" in b:
+            # a child that cannot compute what this interpreter computes is "not compared", not a verdict
+            _xproc_fail(run, f"{_describe(cfg)}: fresh interpreter raised {b['error']}")
+            continue
+        t = b["table"]
+        bad = None
+        for form, rows in a.items():
+            for i, ra, rb in zip(cfg["indices"], rows, t.get(form, [])):
+                run.count("cross_interpreter_results_compared")
+                if bad is None and not (_close(ra["x"], rb["x"]) and _close(ra["y"], rb["y"])):
+                    bad = (form, i, ra, rb)
+        if bad is not None:
+            form, i, ra, rb = bad
+            run.violation("xproc:seeded-draw-differs-between-interpreters",
+                          f"{_describe(cfg)} mode={form!r} [{i}]: this interpreter (PYTHONHASHSEED={os.environ.get('PYTHONHASHSEED')}) and a fresh interpreter with "
+                          f"PYTHONHASHSEED={spec['hashseed']} return different results for the same seed: label {_fmt(ra['y'] or [])} vs {_fmt(rb['y'] or [])}, "
+                          f"x[:4] {_fmt((ra['x'] or [])[:4])} vs {_fmt((rb['x'] or [])[:4])}", one)
+
+
+def finalize(run):
+    while _pending:
+        spec, p, mine = _pending.pop(0)
+        _collect_xproc(run, spec, p, mine)
 
 
 def _agree(run, spec, M, i_req, per_form):
